@@ -1,10 +1,153 @@
-(* C07 — property theorems only. *)
+(* C07 — property theorems only.  Each is closed by [exact] of a lemma from
+   Proofs*.v and followed by Print Assumptions. *)
 From Coq Require Import List Arith ZArith Bool.
-From Verif Require Import lib.Wire c07.Model c07.Spec c07.Proofs.
+From Verif Require Import lib.Wire c07.Model c07.Spec c07.Proofs c07.Proofs_trace
+     c07.Proofs_hist c07.Proofs_thms.
 Import ListNotations.
 Local Open Scope Z_scope.
 
+(* THE property on traces: for every universe size, every pair of limit
+   tables, every history of handler registrations / removals, knowledge
+   updates, sequential and concurrent opens (any interleaving of the
+   peerstore reads with the AddProtocols of the same batch, either outcome
+   of the reset/acknowledgement race) and closes, the observable trace of the
+   model satisfies the very monitor that judges the implementation's traces. *)
+Theorem c07_trace_holds : forall U has_scope c ops,
+  wf_cfg has_scope c -> Forall (wf_op U) ops ->
+  holds U has_scope (limL c) (trace_i U c init_st ops) = true.
+Proof. exact holds_model_i. Qed.
+Print Assumptions c07_trace_holds.
+
+(* the same for ANY select / lazy-select functions with go-multistream's
+   documented behaviour: the proof uses nothing else about the dependency *)
+Theorem c07_trace_holds_given_multistream_contract : forall ms_select ms_lazy,
+  (forall sup l p, ms_select sup l = Some p ->
+     exists l1 l2, l = l1 ++ p :: l2 /\ sup p = true /\ (forall q, In q l1 -> sup q = false)) ->
+  (forall sup p, ms_lazy sup p = sup p) ->
+  forall U has_scope c ops, wf_cfg has_scope c -> Forall (wf_op U) ops ->
+  holds U has_scope (limL c) (trace ms_select ms_lazy U c init_st ops) = true.
+Proof. exact holds_model_any. Qed.
+Print Assumptions c07_trace_holds_given_multistream_contract.
+
+(* the executable instance has that behaviour (the theorems are not vacuous) *)
+Theorem c07_instance_meets_contract :
+  (forall sup l p, ms_select_impl sup l = Some p ->
+     exists l1 l2, l = l1 ++ p :: l2 /\ sup p = true /\ (forall q, In q l1 -> sup q = false)) /\
+  (forall sup l, ms_select_impl sup l = None -> forall q, In q l -> sup q = false) /\
+  (forall sup p, ms_lazy_impl sup p = sup p).
+Proof. exact (conj impl_select_some (conj impl_select_none impl_lazy_spec)). Qed.
+Print Assumptions c07_instance_meets_contract.
+
+(* agreement: a stream that was obtained is bound to one of the requested
+   protocols, the listener's stream reports the same ID, exactly one closure
+   got the dialer's bytes, and it is the FIRST entry of the listener's table
+   (registration order, a re-registration moving to the end) accepting it *)
+Theorem c07_agreement : forall c t kn b reqs extra race b' r,
+  open1_i c t kn b reqs extra race = (b', r) -> obtained r = true ->
+  In (o_dp r) reqs /\ o_lp r = o_dp r /\ o_ninv r = 1 /\ o_hreg r = o_h r /\ o_hlp r = o_dp r /\
+  o_un r = [] /\
+  exists pre h post, t = pre ++ h :: post /\ h_reg h = o_h r /\
+    memz (o_dp r) (h_acc h) = true /\ (forall x, In x pre -> memz (o_dp r) (h_acc x) = false).
+Proof. exact agreement_i. Qed.
+Print Assumptions c07_agreement.
+
+(* no protocol in common: no stream is obtained, no closure runs (with or
+   without the nonce), nothing stays charged or held; the open itself fails
+   unless the protocol was taken optimistically from earlier knowledge, and
+   then the first use fails *)
+Theorem c07_no_common_fails_no_handler : forall c t kn b reqs extra race b' r,
+  (forall q, In q reqs -> supports t q = false) ->
+  open1_i c t kn b reqs extra race = (b', r) ->
+  obtained r = false /\ o_ninv r = 0 /\ o_un r = [] /\ same_counts b b' /\
+  (o_res r <> 0 \/ (o_use r = 0 /\ memz (o_dp r) kn = true)).
+Proof. exact no_common_i. Qed.
+Print Assumptions c07_no_common_fails_no_handler.
+
+(* a closure whose registration was removed (RemoveStreamHandler) or replaced
+   (a new registration under the same name) is never invoked by any later
+   operation, whatever follows *)
+Theorem c07_removed_handler_never_runs : forall U c ops1 o name ops2 e,
+  replaces o name ->
+  In e (tbl (run_i U c init_st ops1)) -> h_name e = name ->
+  forall o' x, In (o', x) (trace_i U c (fst (step_i U c (run_i U c init_st ops1) o)) ops2) ->
+               ~ In (h_reg e) (obs_ran x).
+Proof. exact removed_never_runs_i. Qed.
+Print Assumptions c07_removed_handler_never_runs.
+
+(* an obtained stream is charged to the negotiated protocol's scope on both
+   sides (exactly one more stream there, nothing anywhere else, both scopes
+   had accepted the charge); a stream that was not obtained leaves both
+   sides' counts as they were *)
+Theorem c07_scope_charged_to_negotiated : forall c t kn b reqs extra race b' r,
+  open1_i c t kn b reqs extra race = (b', r) ->
+  if obtained r
+  then b_out b' = upd (b_out b) (o_dp r) (b_out b (o_dp r) + 1) /\
+       b_in b' = upd (b_in b) (o_lp r) (b_in b (o_lp r) + 1) /\
+       b_held b' = b_held b ++ [(b_nslot b, o_dp r)] /\
+       scope_try (limD c) (b_out b) (o_dp r) <> None /\
+       scope_try (limL c) (b_in b) (o_dp r) <> None
+  else same_counts b b'.
+Proof. exact scope_charged_i. Qed.
+Print Assumptions c07_scope_charged_to_negotiated.
+
+(* after every history, each protocol scope on either side counts exactly the
+   streams bound to that protocol that both ends still hold *)
+Theorem c07_scopes_count_held_streams : forall U c ops q,
+  let s := run_i U c init_st ops in
+  outD s q = count_held q (held s) /\ inL s q = count_held q (held s).
+Proof. exact scopes_count_held_i. Qed.
+Print Assumptions c07_scopes_count_held_streams.
+
+(* ---- non-vacuity ------------------------------------------------------------ *)
+Definition nolim : cfg := mkCfg (fun _ => -1) (fun _ => -1).
+
+(* a reachable obtained stream through SelectOneOf (second proposal, match
+   function handler registered first wins over the exact one) *)
+Example obtained_by_select :
+  let tr := trace_i 4 nolim init_st [OAddMatch 0 [1; 2]; OAdd 1; OBatch [([3; 1], [], false)]] in
+  match nth 2 tr (OAdd 0, ObMux []) with
+  | (_, ObBatch [r] _ kn _) => obtained r = true /\ o_dp r = 1 /\ o_h r = 0 /\ kn = [1]
+  | _ => False
+  end.
+Proof. vm_compute. repeat split. Qed.
+
+(* stale knowledge: optimistic choice of a removed protocol, the open
+   succeeds, the first use fails, no handler runs although another requested
+   protocol is served *)
+Example stale_knowledge_first_use_fails :
+  let tr := trace_i 4 nolim init_st [OAdd 0; OAdd 1; OKnow [0; 1]; ORemove 0; OBatch [([0; 1], [], false)]] in
+  match nth 4 tr (OAdd 0, ObMux []) with
+  | (_, ObBatch [r] un _ _) => o_res r = 0 /\ o_dp r = 0 /\ o_use r = 0 /\ o_ninv r = 0 /\ un = []
+  | _ => False
+  end.
+Proof. vm_compute. repeat split. Qed.
+
+(* the monitor rejects: listener stream reports another protocol *)
 Example monitor_rejects_wrong_protocol :
   monitor_case [7; 0; 0; 2; -1; -1; -1; -1;  1; 0; 1; 0;
-                5; 1; 1; 0;  0; 1; 1; 0; 1; 1; 0; 1;  0;  0;  0; 0; 0; 0] <> [].
+                5; 1; 1; 0;  0; 0; 1; 0; 1; 1; 0; 1;  0;  1; 0;  0; 0; 0; 0] <> [].
+Proof. vm_compute. discriminate. Qed.
+
+(* ... a removed handler ran *)
+Example monitor_rejects_removed_handler :
+  monitor_case [7; 0; 0; 2; -1; -1; -1; -1;  1; 0; 1; 0;  3; 0; 0;
+                5; 1; 1; 0;  0; 0; 1; 0; 0; 1; 0; 0;  0;  1; 0;  0; 0; 0; 0] <> [].
+Proof. vm_compute. discriminate. Qed.
+
+(* ... the same trace with the handler still registered is accepted *)
+Example monitor_accepts_registered_handler :
+  monitor_case [7; 0; 0; 2; -1; -1; -1; -1;  1; 0; 1; 0;
+                5; 1; 1; 0;  0; 0; 1; 0; 0; 1; 0; 0;  0;  1; 0;  0; 0; 0; 0] = [].
+Proof. vm_compute. reflexivity. Qed.
+
+(* ... nothing in common, unknown listener, yet NewStream returned a stream *)
+Example monitor_rejects_stream_without_common_protocol :
+  monitor_case [7; 0; 0; 2; -1; -1; -1; -1;  1; 0; 1; 0;
+                5; 1; 1; 1;  0; 1; 0; -1; -1; 0; -1; -1;  0;  0;  0; 0; 0; 0] <> [].
+Proof. vm_compute. discriminate. Qed.
+
+(* ... stream obtained but the listener's scope for the protocol not charged *)
+Example monitor_rejects_uncharged_scope :
+  monitor_case [7; 1; 1; 2; -1; -1; -1; -1;  1; 0; 1; 0;
+                5; 1; 1; 0;  0; 0; 1; 0; 0; 1; 0; 0;  0;  1; 0;  1; 0; 0; 0] <> [].
 Proof. vm_compute. discriminate. Qed.
